@@ -521,3 +521,24 @@ func loadContracts(repoDir, module, extDir string) (*Contracts, error) {
 	}
 	return cs, nil
 }
+
+// mentions reports whether any clause of the contract contains the given text.
+func (fc *FuncContract) mentions(txt string) bool {
+	has := func(cs []*Clause) bool {
+		for _, c := range cs {
+			if strings.Contains(c.Src, txt) {
+				return true
+			}
+		}
+		return false
+	}
+	if has(fc.Requires) || has(fc.Ensures) {
+		return true
+	}
+	for _, l := range fc.Loops {
+		if has(l.Invariants) {
+			return true
+		}
+	}
+	return false
+}
